@@ -3,6 +3,7 @@ import Tally.Spec.C13
 import TallyProofs.Props.C12
 import TallyProofs.Lemmas.M3Report
 import TallyProofs.Lemmas.M3Buckets
+import TallyProofs.Lemmas.M3Pool
 /-!
 # C13 — M3 delivers every reported value exactly once and intact
 
@@ -25,7 +26,13 @@ the tag-cache hash is an arbitrary function.
 * `timestamp_bracket`, `timestamps_monotone` — every timestamp is the clock cell's content at the
   report step: not earlier than construction, not later than the cell at any later time, never
   decreasing along the queue;
-* `legacy_tag_cache_counterexample`, `legacy_clock_counterexample` — the pinned behaviour.
+* `legacy_tag_cache_counterexample`, `legacy_clock_counterexample` — the pinned behaviour;
+* `pool_refines_batch`, `emitted_tags_intact`, `pool_invariant` — `process()` with its memory made
+  explicit (`Tally/Model/M3Pool.lean`: heap of backing arrays, `sync.Pool` of recycled tag slices with
+  an arbitrary choice per `Get`, batch entries that are views of heap arrays): whatever the pool hands
+  out, the batches read at flush time are those of the abstract fold, every metric with its own tags
+  followed by its own two bucket tags; `mutant_recycles_early_counterexample` — not so when the tags
+  are built before the flush-if-needed block.
 -/
 namespace Tally.Props.C13
 open Tally Tally.Thrift Tally.M3
@@ -346,5 +353,97 @@ example : CacheInv (convertTags toyHash [] mapA).2 := by
   simp [convertTags, mapA, toyHash, fresh, tagOf] at he
   subst he
   simp
+
+/-! ### the recycled tag slices of histogram bucket samples (`process()` with its memory) -/
+
+/-- every run of the loop — any items, any choices of the pool — keeps the heap invariant: pool and
+borrowed list duplicate-free and disjoint, every view of the open batch into a borrowed array that
+holds exactly the tags of its entry, no array shared by two entries -/
+theorem pool_invariant (free : Nat) (items : List Pool.PItem) (cs : List Pool.Choice) :
+    Pool.Inv (Pool.consume free Pool.PState.init items cs) :=
+  Pool.Inv.init.consume items cs
+
+/-- the abstraction is sound: for every queue and every behaviour of the `sync.Pool` (which pooled
+array each `Get` returns, or a new one), the batches the heap model reads at its flushes are the
+batches of the abstract fold of `M3Batch.lean` on the items with the bucket tags appended -/
+theorem pool_refines_batch (free : Nat) (items : List Pool.PItem) (cs : List Pool.Choice) :
+    Pool.runPool free items cs = batches free (items.map Pool.abs) := by
+  have hinv := pool_invariant free items cs
+  have h := Pool.consume_abs free items Pool.PState.init cs Pool.Inv.init
+  show (Pool.absState (Pool.emit (Pool.consume free Pool.PState.init items cs))).out = _
+  rw [Pool.emit_abs hinv, h, Pool.absState_init]
+  rfl
+
+/-- what a queue item must be sent as: a plain metric as it is, a histogram bucket sample with its
+own tags followed by its bucket-id tag and its bucket tag (a non-nil slice); a flush marker sends
+nothing -/
+def expectedSized : Pool.PItem → Option Sized
+  | .met m size none => some { m := m, size := size }
+  | .met m size (some (idTag, bucketTag)) =>
+    some { m := { m with tags := some (m.tags.getD [] ++ [idTag, bucketTag]) }, size := size }
+  | .flush => none
+
+/-- no emitted metric ever shows another sample's tags: the metrics of the emitted batches, in
+order, are exactly the queue's metrics in queue order, each with `own ++ [bucket-id tag, bucket tag]`
+of its own item (`own` for a plain metric) — whatever arrays the pool recycled -/
+theorem emitted_tags_intact (free : Nat) (items : List Pool.PItem) (cs : List Pool.Choice) :
+    (Pool.runPool free items cs).flatten = items.filterMap expectedSized := by
+  rw [pool_refines_batch, Props.C12.batching_partition, queued, List.filterMap_map]
+  congr 1
+  funext it
+  match it with
+  | .met m size none => rfl
+  | .met m size (some (a, b)) => rfl
+  | .flush => rfl
+
+/-- one histogram (name `h`, own tag `t=v`), its buckets 0, 1 and 2 -/
+def histT : Metric := template [104] .counter (some [⟨[116], [118]⟩])
+def bkt0 : MetricTag × MetricTag := (⟨[105], [48]⟩, ⟨[98], [48, 45, 49]⟩)
+def bkt1 : MetricTag × MetricTag := (⟨[105], [49]⟩, ⟨[98], [49, 45, 50]⟩)
+def bkt2 : MetricTag × MetricTag := (⟨[105], [50]⟩, ⟨[98], [50, 45, 51]⟩)
+
+/-- two samples of 10 bytes each, nothing fits (`freeBytes = 0`): each one overflows -/
+def twoSamples : List Pool.PItem := [.met histT 10 (some bkt0), .met histT 10 (some bkt1)]
+
+/-- the seeded defect "c13-hist-tags-recycled-early" (tags built before the flush-if-needed block):
+the first sample's array is borrowed, the flush block that follows hands it straight back to the
+pool while the open batch points at it; the second sample is given that array (`some 0`) and writes
+its tags; the overflow then emits the FIRST batch — whose metric carries the SECOND sample's bucket
+tags.  The abstract fold (and the correct model) send bucket 0 first. -/
+theorem mutant_recycles_early_counterexample :
+    (Pool.Mutant.runPool 0 twoSamples [none, some 0]).map (·.map (·.m.tags))
+      = [[some ([⟨[116], [118]⟩] ++ [bkt1.1, bkt1.2])], [some ([⟨[116], [118]⟩] ++ [bkt1.1, bkt1.2])]] ∧
+    (batches 0 (twoSamples.map Pool.abs)).map (·.map (·.m.tags))
+      = [[some ([⟨[116], [118]⟩] ++ [bkt0.1, bkt0.2])], [some ([⟨[116], [118]⟩] ++ [bkt1.1, bkt1.2])]] ∧
+    Pool.Mutant.runPool 0 twoSamples [none, some 0] ≠ batches 0 (twoSamples.map Pool.abs) := by
+  refine ⟨by decide, by decide, by decide⟩
+
+/-- the same with room for one sample per batch (`freeBytes = 15`): the second sample overflows, its
+fresh array is recycled by the flush it triggers, the third sample is given it and the second batch
+goes out with bucket 2's tags in place of bucket 1's -/
+theorem mutant_recycles_early_counterexample_roomy :
+    (Pool.Mutant.runPool 15 (twoSamples ++ [.met histT 10 (some bkt2)]) [none, none, some 1]).map
+        (·.map (·.m.tags))
+      = [[some ([⟨[116], [118]⟩] ++ [bkt0.1, bkt0.2])], [some ([⟨[116], [118]⟩] ++ [bkt2.1, bkt2.2])],
+         [some ([⟨[116], [118]⟩] ++ [bkt2.1, bkt2.2])]] := by
+  decide
+
+/-- the correct loop on the same input and the same choices: bucket 0, then bucket 1 -/
+example :
+    (Pool.runPool 0 twoSamples [none, some 0]).map (·.map (·.m.tags))
+      = [[some ([⟨[116], [118]⟩] ++ [bkt0.1, bkt0.2])], [some ([⟨[116], [118]⟩] ++ [bkt1.1, bkt1.2])]] ∧
+    Pool.runPool 0 twoSamples [none, some 0] = batches 0 (twoSamples.map Pool.abs) := by
+  refine ⟨by decide, by decide⟩
+
+/-- non-vacuity: in that run the array is really reused.  The first sample allocates array 0; the
+second sample's flush reads it, returns it to the pool, and `Get` hands it out again (`some 0`): the
+run ends with ONE array on the heap, holding the second sample's tags, borrowed, the pool empty —
+and both batches went out right. -/
+example :
+    let s := Pool.runState 0 twoSamples [none, some 0]
+    s.heap = [[⟨[116], [118]⟩, bkt1.1, bkt1.2]] ∧ s.borrowed = [0] ∧ s.pool = [] ∧
+    (Pool.consume 0 Pool.PState.init [.met histT 10 (some bkt0), .flush] []).pool = [0] ∧
+    s.out.flatten = twoSamples.filterMap expectedSized := by
+  decide
 
 end Tally.Props.C13
